@@ -145,8 +145,16 @@ func (f *Func) redefineInputs(opts ...Arg) (reflect.Type, error) {
 	for _, v := range g.Vertices() {
 		switch v := v.(type) {
 		case *funcVertex:
-			// Copy the func since we're going to modify a field in it.
+			// Copy the func since we're going to modify a field in it. A
+			// FuncOnce function may be memoizing its result in another
+			// goroutine right now, so copy it under its lock.
+			if v.Func.once {
+				v.Func.onceMu.Lock()
+			}
 			fCopy := *v.Func
+			if v.Func.once {
+				v.Func.onceMu.Unlock()
+			}
 			v.Func = &fCopy
 
 			// Modify the function to be a zero producing function.
